@@ -141,7 +141,8 @@ def make_sbs(n, m, M, gf, p=1, mode="c07", o5=False):
             elif exceeds[i] is None and not any(starts[i] <= c < ends[i] for c in cpts):
                 acc.oblige(eng, "O4.no_uncovered_interval", z3.Not(vals[i] > th), dict(info, interval=(starts[i], ends[i]), cpts=cpts))
         _witness(eng, acc, n, m, M, gf, p, cpts, vals)
-        acc.sample(dict(info, cpts=cpts, intervals=list(zip(starts, ends)), argmax=maxi))
+        acc.sample(dict(info, cpts=cpts, intervals=list(zip(starts, ends)), argmax=maxi,
+                        path_condition=[str(c).replace("\n", " ")[:140] for c in eng.pc[: eng.synced][:6]]))
         # O5: raising the threshold only removes changepoints (product run, same path)
         if o5:
           det2 = SBS(TableChangeScore(p=p), threshold_scale=SymReal(ts + dts), min_segment_length=m,
